@@ -660,5 +660,11 @@ pub fn listen<S: ?Sized + AsRef<str>, H: crate::ConnectionHandler + Send + Sync 
                 }
             }
         });
+
+        if let Some(stop) = listen_config.stop_listening.as_ref() {
+            if stop.load(Ordering::SeqCst) {
+                return Ok(());
+            }
+        }
     }
 }
